@@ -15,7 +15,7 @@ CLAIMED = {
             "Proof: every clause of the property is a Lean theorem over the conversion tables regenerated from the Rust source on each run (identity, linearity, 0.1% round trip, 0.1% physical factor, create_time/create_speed/create_energy definitions and rejection), for all magnitudes in any linearly ordered field. The constructors' code shape is guarded by the translator and their behaviour tied by a bit-exact differential run on every unit combination.",
             "§5 C09"),
     "C08": ("Lean 4 theorems over an executable model of the energy traversal model, prediction record (incl. float cache), ICE/BEV/PHEV and vehicle_ops, generic over any ordered field, prediction model and cache as parameters + bit-exact correspondence run against the real EnergyTraversalModel / SpeedTraversalModel / vehicles / FloatCachePolicy around a stub predictor",
-            "Proof: per-edge energy = rate(edge speed x exact reconstruction factor, grade) x adjustment x length (factor within 0.1% of 1 for all 720 unit configurations, decided by the kernel over the translator-regenerated tables); additivity along every route for every unit configuration and cache; state of charge within 0-100 for every edge sequence (induction), start value, exact clamped step -100 E/capacity, PHEV switch, best case, rejection of out-of-range / non-numeric starting charge; cache proved to be the identity when the key determines the prediction. Two deviations of the code are modelled faithfully and proved as counterexamples (cache key collisions / truncated key, unit mix in best_case_energy_state); estimate_traversal's haversine distance is outside the model.",
+            "Proof: per-edge energy = rate(edge speed x exact reconstruction factor, grade) x adjustment x length (factor within 0.1% of 1 for all 720 unit configurations, decided by the kernel over the translator-regenerated tables); additivity along every route for every unit configuration and cache; state of charge within 0-100 for every edge sequence (induction), start value, exact clamped step -100 E/capacity, PHEV switch, best case, rejection of out-of-range / non-numeric starting charge; cache proved to be the identity when the key determines the prediction. Three deviations of the code are modelled faithfully and proved as counterexamples (cache key collisions / truncated key, unit mix in best_case_energy_state, starting charge set through state_features without range check); the haversine value used by estimate_traversal is an input of the model, not modelled.",
             "§5 C08"),
 }
 
